@@ -238,7 +238,7 @@ fn write_entry(
         low_res_scale,
     } = entry.specs;
 
-    file_format.write_header(w, &EntryHeaderData {
+    file_format.write_header(w, emitter, &EntryHeaderData {
         rt_width, rt_height, rt_format, colorkey,
         offset_x, offset_y,
         memory_priority,
@@ -289,7 +289,7 @@ fn write_entry(
     if let Some(texture_data) = &entry.texture_data {
         let texture_metadata = entry.texture_metadata.as_ref().expect("always Some if texture_data is");
         texture_offset = w.pos()? - entry_pos;
-        write_texture(w, texture_data, texture_metadata)?;
+        write_texture(w, emitter, texture_data, texture_metadata)?;
     };
 
     let end_pos = w.pos()?;
@@ -383,13 +383,13 @@ fn read_texture(f: &mut BinReader, emitter: &impl Emitter, with_images: bool) ->
 }
 
 #[inline(never)]
-fn write_texture(f: &mut BinWriter, data: &TextureData, metadata: &TextureMetadata) -> WriteResult {
+fn write_texture(f: &mut BinWriter, emitter: &dyn Emitter, data: &TextureData, metadata: &TextureMetadata) -> WriteResult {
     f.write_all(b"THTX")?;
 
     f.write_u16(0)?;
-    f.write_u16(metadata.format as _)?;
-    f.write_u16(metadata.width as _)?;
-    f.write_u16(metadata.height as _)?;
+    f.write_u16(llir::fit_field(emitter, "img_format", metadata.format)?)?;
+    f.write_u16(llir::fit_field(emitter, "img_width", metadata.width)?)?;
+    f.write_u16(llir::fit_field(emitter, "img_height", metadata.height)?)?;
 
     f.write_u32(data.data.len() as _)?;
     f.write_all(&data.data)?;
@@ -488,7 +488,7 @@ impl FileFormat {
         }
     }
 
-    fn write_header(&self, f: &mut BinWriter, header: &EntryHeaderData) -> WriteResult {
+    fn write_header(&self, f: &mut BinWriter, emitter: &dyn Emitter, header: &EntryHeaderData) -> WriteResult {
         if self.version.is_old_header() {
             // old format
             f.write_u32(header.num_sprites as _)?;
@@ -504,7 +504,7 @@ impl FileFormat {
             f.write_u32(header.version)?;
             f.write_u32(header.memory_priority)?;
             f.write_u32(header.thtx_offset.map(NonZeroU64::get).unwrap_or(0) as _)?;
-            f.write_u16(header.has_data as _)?;
+            f.write_u16(llir::fit_field(emitter, "has_data", header.has_data)?)?;
             f.write_u16(0)?;
             f.write_u32(header.next_offset as _)?;
             f.write_u32(0)?;
@@ -512,19 +512,19 @@ impl FileFormat {
         } else {
             // new format
             f.write_u32(header.version as _)?;
-            f.write_u16(header.num_sprites as _)?;
-            f.write_u16(header.num_scripts as _)?;
+            f.write_u16(llir::fit_field(emitter, "number of sprites", header.num_sprites)?)?;
+            f.write_u16(llir::fit_field(emitter, "number of scripts", header.num_scripts)?)?;
             f.write_u16(0)?;
-            f.write_u16(header.rt_width as _)?;
-            f.write_u16(header.rt_height as _)?;
-            f.write_u16(header.rt_format as _)?;
+            f.write_u16(llir::fit_field(emitter, "rt_width", header.rt_width)?)?;
+            f.write_u16(llir::fit_field(emitter, "rt_height", header.rt_height)?)?;
+            f.write_u16(llir::fit_field(emitter, "rt_format", header.rt_format)?)?;
             f.write_u32(header.name_offset as _)?;
-            f.write_u16(header.offset_x as _)?;
-            f.write_u16(header.offset_y as _)?;
+            f.write_u16(llir::fit_field(emitter, "offset_x", header.offset_x)?)?;
+            f.write_u16(llir::fit_field(emitter, "offset_y", header.offset_y)?)?;
             f.write_u32(header.memory_priority as _)?;
             f.write_u32(header.thtx_offset.map(NonZeroU64::get).unwrap_or(0) as _)?;
-            f.write_u16(header.has_data as _)?;
-            f.write_u16(header.low_res_scale as _)?;
+            f.write_u16(llir::fit_field(emitter, "has_data", header.has_data)?)?;
+            f.write_u16(llir::fit_field(emitter, "low_res_scale", header.low_res_scale)?)?;
             f.write_u32(header.next_offset as _)?;
             f.write_u32s(&[0; 6])?;
         }
@@ -581,10 +581,10 @@ impl InstrFormat for InstrFormat06 {
         }
     }
 
-    fn write_instr(&self, f: &mut BinWriter, _: &dyn Emitter, instr: &RawInstr) -> WriteResult {
-        f.write_i16(instr.time as _)?;
-        f.write_u8(instr.opcode as _)?;
-        f.write_u8(instr.args_blob.len() as _)?;
+    fn write_instr(&self, f: &mut BinWriter, emitter: &dyn Emitter, instr: &RawInstr) -> WriteResult {
+        f.write_i16(llir::fit_field(emitter, "time label", instr.time)?)?;
+        f.write_u8(llir::fit_field(emitter, "opcode", instr.opcode)?)?;
+        f.write_u8(llir::fit_field(emitter, "argument size", instr.args_blob.len())?)?;
         f.write_all(&instr.args_blob)?;
         Ok(())
     }
@@ -614,10 +614,10 @@ impl InstrFormat for InstrFormat07 {
         Ok(ReadInstr::Instr(RawInstr { time, opcode: opcode as _, param_mask, args_blob, ..RawInstr::DEFAULTS }))
     }
 
-    fn write_instr(&self, f: &mut BinWriter, _: &dyn Emitter, instr: &RawInstr) -> WriteResult {
+    fn write_instr(&self, f: &mut BinWriter, emitter: &dyn Emitter, instr: &RawInstr) -> WriteResult {
         f.write_u16(instr.opcode)?;
-        f.write_u16(self.instr_size(instr) as _)?;
-        f.write_i16(instr.time as _)?;
+        f.write_u16(llir::fit_field(emitter, "instruction size", self.instr_size(instr))?)?;
+        f.write_i16(llir::fit_field(emitter, "time label", instr.time)?)?;
         f.write_u16(instr.param_mask as _)?;
         f.write_all(&instr.args_blob)?;
         Ok(())
